@@ -192,4 +192,67 @@ def agg_is_na_numba_signature : List String := ["x"]
 /-- the calls of dataiter/aggregate.py: is_na_numba in the order Python makes them along the source text -/
 def agg_is_na_numba_call_order : List String := ["len", "np.full", "len", "range", "is_na_item_numba"]
 
+/-- dataiter/aggregate.py: generic_numba.aggregate (sha256 of the function source: 6ae11235622137ff) -/
+def agg_generic_numba_aggregate (truth : Term → Bool) : Out :=
+  let out' : Term := (Term.app "list" []);
+  let eff0 : Term := (Term.app "for" [(Term.sym "xg"), (Term.app "yield_groups_numba" [(Term.sym "x"), (Term.sym "group"), (Term.sym "drop_na")]), (Term.app "block" [(Term.app ".append" [out', (Term.app "ifexp" [(Term.app "GtE" [(Term.app "len" [(Term.sym "xg")]), (Term.sym "nrequired")]), (Term.app "function" [(Term.sym "xg")]), (Term.sym "default")])])])]);
+  Out.ret [eff0] out'
+
+/-- the decorators of dataiter/aggregate.py: generic_numba.aggregate, outermost first -/
+def agg_generic_numba_aggregate_decorators : List String := ["njit(cache=dataiter.USE_NUMBA_CACHE)"]
+
+/-- the signature of dataiter/aggregate.py: generic_numba.aggregate: parameters in order, with the source text of their defaults -/
+def agg_generic_numba_aggregate_signature : List String := ["x", "group", "drop_na", "default", "nrequired"]
+
+/-- the calls of dataiter/aggregate.py: generic_numba.aggregate in the order Python makes them along the source text -/
+def agg_generic_numba_aggregate_call_order : List String := ["yield_groups_numba", "len", "function", "out.append"]
+
+/-- dataiter/aggregate.py: is_na_item_numba (sha256 of the function source: 741b6fc0fc4d53ba) -/
+def agg_is_na_item_numba (truth : Term → Bool) : Out :=
+  Out.raise [] "NotImplementedError"
+
+/-- the decorators of dataiter/aggregate.py: is_na_item_numba, outermost first -/
+def agg_is_na_item_numba_decorators : List String := []
+
+/-- the signature of dataiter/aggregate.py: is_na_item_numba: parameters in order, with the source text of their defaults -/
+def agg_is_na_item_numba_signature : List String := ["x"]
+
+/-- the calls of dataiter/aggregate.py: is_na_item_numba in the order Python makes them along the source text -/
+def agg_is_na_item_numba_call_order : List String := []
+
+/-- dataiter/aggregate.py: is_na_item_numba_overload (sha256 of the function source: 4d2ae6c7f41732d1) -/
+def agg_is_na_item_numba_overload (truth : Term → Bool) : Out :=
+  if truth (Term.app "isinstance" [(Term.sym "x"), (Term.sym "types.Float")]) then
+    Out.ret [] (Term.app "lambda" [(Term.app "params" [(Term.sym "x")]), (Term.app "np.isnan" [(Term.sym "x")])])
+  else
+    if truth (Term.app "isinstance" [(Term.sym "x"), (Term.sym "types.NPDatetime")]) then
+      Out.ret [] (Term.app "lambda" [(Term.app "params" [(Term.sym "x")]), (Term.app "np.isnat" [(Term.sym "x")])])
+    else
+      if truth (Term.app "isinstance" [(Term.sym "x"), (Term.sym "types.UnicodeType")]) then
+        Out.ret [] (Term.app "lambda" [(Term.app "params" [(Term.sym "x")]), (Term.app "Eq" [(Term.sym "x"), (Term.sym "''")])])
+      else
+        Out.ret [] (Term.app "lambda" [(Term.app "params" [(Term.sym "x")]), (Term.sym "False")])
+
+/-- the decorators of dataiter/aggregate.py: is_na_item_numba_overload, outermost first -/
+def agg_is_na_item_numba_overload_decorators : List String := ["overload(is_na_item_numba)"]
+
+/-- the signature of dataiter/aggregate.py: is_na_item_numba_overload: parameters in order, with the source text of their defaults -/
+def agg_is_na_item_numba_overload_signature : List String := ["x"]
+
+/-- the calls of dataiter/aggregate.py: is_na_item_numba_overload in the order Python makes them along the source text -/
+def agg_is_na_item_numba_overload_call_order : List String := ["isinstance", "isinstance", "isinstance"]
+
+/-- dataiter/util.py: parse_env_boolean (sha256 of the function source: d7a10de2db0add60) -/
+def util_parse_env_boolean (truth : Term → Bool) : Out :=
+  Out.ret [] (Term.app "getitem" [(Term.app "dict" [(Term.app "pair" [(Term.sym "'1'"), (Term.sym "True")]), (Term.app "pair" [(Term.sym "'t'"), (Term.sym "True")]), (Term.app "pair" [(Term.sym "'true'"), (Term.sym "True")]), (Term.app "pair" [(Term.sym "'y'"), (Term.sym "True")]), (Term.app "pair" [(Term.sym "'yes'"), (Term.sym "True")]), (Term.app "pair" [(Term.sym "'0'"), (Term.sym "False")]), (Term.app "pair" [(Term.sym "'f'"), (Term.sym "False")]), (Term.app "pair" [(Term.sym "'false'"), (Term.sym "False")]), (Term.app "pair" [(Term.sym "'n'"), (Term.sym "False")]), (Term.app "pair" [(Term.sym "'no'"), (Term.sym "False")])]), (Term.app ".lower" [(Term.app ".strip" [(Term.app "getitem" [(Term.sym "os.environ"), (Term.sym "name")])])])])
+
+/-- the decorators of dataiter/util.py: parse_env_boolean, outermost first -/
+def util_parse_env_boolean_decorators : List String := []
+
+/-- the signature of dataiter/util.py: parse_env_boolean: parameters in order, with the source text of their defaults -/
+def util_parse_env_boolean_signature : List String := ["name"]
+
+/-- the calls of dataiter/util.py: parse_env_boolean in the order Python makes them along the source text -/
+def util_parse_env_boolean_call_order : List String := ["os.environ[name].strip", "os.environ[name].strip().lower"]
+
 end DI.Gen
